@@ -28,6 +28,8 @@ pub const NETWORKS: &[(&str, &str)] = &[
     ("rep3p", "a -> b\nb -> c\nc -| a\n$b: a\n$c: b\n"),
     ("mixed3", "a -> b\nb -?? c\nc -| a\na -> a\n$a: a & !c\n$b: a\n"),
     ("shared2", "a -> b\nb -> a\n$a: h(b)\n$b: h(a)\n"),
+    // network variables named like the auxiliary BDD variables of the extended encoding ("{var}_extra_{i}")
+    ("xtra2", "a_extra_0 -> b_extra_1\nb_extra_1 -?? a_extra_0\n"),
 ];
 
 pub struct Xg {
